@@ -30,7 +30,12 @@ Inductive hop : Type :=
 (** the same operation, but the [k]-th element destructor that runs during the step panics
     (only generated around removals and [clear], whose destructor paths - std's
     [drop_in_place] on a slice, [Drain]'s and [DrainCol]'s drop guards - finish the work) *)
-| HBomb (k : nat) (o : hop).
+| HBomb (k : nat) (o : hop)
+(** the same operation, but the [k]-th call (from 0) of the element type's [Clone::clone]
+    ([kind] 0) or [Default::default] ([kind] 1) during the step panics (C11) *)
+| HFuse (kind k : nat) (o : hop)
+(** [t.clone_from(&src)] with [src = TooDee::from_vec(c, r, d)] (dropped afterwards) *)
+| HCloneFrom (c r : N) (d : list elt).
 
 Record hconf : Type := mkConf {
   cf_dbg : bool;      (* debug assertions / overflow checks on *)
@@ -72,6 +77,54 @@ Definition of_drainres (h : hstate) (r : res (drainres elt)) : res (hstate * hob
 
 Fixpoint fresh_seq (start : N) (n : nat) : list N :=
   match n with 0 => [] | S n' => start :: fresh_seq (start + 1)%N n' end.
+
+(** What a panicking [Clone] / [Default] leaves behind, per operation (std's documented
+    behaviour of the containers the crate delegates to):
+    - [init]: [vec![v; n]] clones [n - 1] times, then moves [v] in; the partial Vec and [v]
+      are dropped by unwinding, no array is produced;
+    - [fill] (owned: [slice::fill]): cell i becomes [v.clone()] for i < n - 1 (the old
+      value is dropped after the clone succeeded), the last cell takes [v] itself;
+    - [clone] / [clone_from] (derived [Clone]: [*self = source.clone()]): [Vec::clone]
+      clones in order, a partial copy is dropped by unwinding, [self] is not touched;
+    - [new]: [Vec::resize_with(n, T::default)] likewise.
+    [None]: the fuse does not fire in this operation (rejected before any call, or fewer
+    calls than [k + 1]). *)
+Definition fuse_fires (cf : hconf) (h : hstate) (kind k : nat) (o : hop) : option (hstate * hobs) :=
+  let t := h_td h in
+  match kind, o with
+  | 0, HInit c r v =>
+      if zero_rule_ok c r then
+        match checked_mul r c with
+        | Some p => if (p <=? cf_cap cf)%N && (S k <? N.to_nat p)
+                    then Some (h, mkObs false [] (repeat v (S k)) []) else None
+        | None => None
+        end
+      else None
+  | 0, HFill v =>
+      if S k <? length (data t)
+      then Some (mkH (mkTD (repeat v k ++ skipn k (data t)) (num_rows t) (num_cols t)) (h_fresh h),
+                 mkObs false [] (firstn k (data t) ++ [v]) [])
+      else None
+  | 0, HClone => if k <? length (data t) then Some (h, mkObs false [] (firstn k (data t)) []) else None
+  | 0, HCloneFrom c r d =>
+      if zero_rule_ok c r then
+        match checked_mul c r with
+        | Some p => if (p =? N.of_nat (length d))%N && (k <? length d)
+                    then Some (h, mkObs false [] (firstn k d ++ d) []) else None
+        | None => None
+        end
+      else None
+  | 1, HNew c r =>
+      if zero_rule_ok c r then
+        match checked_mul c r with
+        | Some p => if (p <=? cf_cap cf)%N && (k <? N.to_nat p)
+                    then Some (mkH t (h_fresh h + N.of_nat k)%N, mkObs false [] (fresh_seq (h_fresh h) k) [])
+                    else None
+        | None => None
+        end
+      else None
+  | _, _ => None
+  end.
 
 Fixpoint hstep (cf : hconf) (h : hstate) (o : hop) {struct o} : res (hstate * hobs) :=
   let t := h_td h in
@@ -160,6 +213,22 @@ Fixpoint hstep (cf : hconf) (h : hstate) (o : hop) {struct o} : res (hstate * ho
   | HIntoIter k =>
       Ok (mkH td_default (h_fresh h), mkObs true (e_Nlist (firstn k (data t))) (data t) [])
   | HDrop => Ok (mkH td_default (h_fresh h), mkObs true [] (data t) [])
+  | HFuse kind k o' =>
+      if negb (cf_track cf) then hstep cf h o'    (* Clone / Default of a Copy type cannot panic *)
+      else match fuse_fires cf h kind k o' with
+           | Some r => Ok r
+           | None => hstep cf h o'
+           end
+  | HCloneFrom c r d =>
+      (* from_vec(c, r, d) (its own assertions), clone_from, report equality, drop the source *)
+      if negb (zero_rule_ok c r) then Ok (h, mkObs false [] d [])
+      else match checked_mul c r with
+           | None => Ok (h, mkObs false [] d [])
+           | Some p =>
+               if (p =? N.of_nat (length d))%N
+               then Ok (mkH (mkTD d (N.to_nat r) (N.to_nat c)) (h_fresh h), mkObs true [1%N] (data t ++ d) [])
+               else Ok (h, mkObs false [] d [])
+           end
   end.
 
 (** * Probes run after every step: lengths through the iterator models, reads through the
@@ -265,12 +334,14 @@ Definition p_hop0 (code : nat) : parser hop :=
   | 18 => p_ret HIntoVec
   | 19 => k <~ p_nat ;; p_ret (HIntoIter k)
   | 20 => p_ret HDrop
+  | 23 => c <~ p_N ;; r <~ p_N ;; d <~ p_list p_N ;; p_ret (HCloneFrom c r d)
   | _ => p_fail
   end.
 
 Definition p_hop : parser hop :=
   code <~ p_nat ;;
   if code =? 21 then k <~ p_nat ;; c2 <~ p_nat ;; o <~ p_hop0 c2 ;; p_ret (HBomb k o)
+  else if code =? 22 then kind <~ p_nat ;; k <~ p_nat ;; c2 <~ p_nat ;; o <~ p_hop0 c2 ;; p_ret (HFuse kind k o)
   else p_hop0 code.
 
 Definition p_conf : parser hconf :=
